@@ -1,6 +1,7 @@
 package vh
 
 import (
+	"bytes"
 	"fmt"
 	"sync/atomic"
 	"testing"
@@ -21,6 +22,10 @@ type hostReq struct {
 type HostRes struct {
 	Status   string // passed skipped failed
 	Panicked any    // a panic that escaped fn
+	// RunFuzz: the function wrote to the caller's memory: to the input itself or to the bytes that follow it in the
+	// same array (the input is handed over as a slice with spare capacity, as a fuzzing engine or a caller that
+	// checks prefixes of one buffer would)
+	Clobbered string
 }
 
 var (
@@ -62,7 +67,24 @@ func Hosted(fn func(t *testing.T)) HostRes {
 // RunFuzz runs MakeFuzz(prop)(t, input) as a sub-test.
 func RunFuzz(prop func(*rapid.T), input []byte) HostRes {
 	f := rapid.MakeFuzz(prop)
-	return Hosted(func(t *testing.T) { f(t, input) })
+	const guard = 24
+	buf := make([]byte, len(input)+guard)
+	copy(buf, input)
+	for i := len(input); i < len(buf); i++ {
+		buf[i] = 0xa5
+	}
+	in := buf[:len(input)]
+	res := Hosted(func(t *testing.T) { f(t, in) })
+	if !bytes.Equal(buf[:len(input)], input) {
+		res.Clobbered = fmt.Sprintf("the %d input bytes were %x before the call and are %x after it", len(input), input, buf[:len(input)])
+	}
+	for i := len(input); i < len(buf); i++ {
+		if buf[i] != 0xa5 {
+			res.Clobbered = fmt.Sprintf("the bytes following the %d-byte input in the caller's array were a5a5.. and are %x after the call", len(input), buf[len(input):])
+			break
+		}
+	}
+	return res
 }
 
 // RunFuzzCfg is RunFuzz under the flag settings of cfg (Repeat reads -rapid.steps).
